@@ -245,3 +245,20 @@ Proof.
   exists (mkf ([] ++ repeat blk3 n) [] []), pst. simpl app.
   destruct (live_repeat n) as [A B]. repeat split; auto.
 Qed.
+
+(* ------------------------------------------------------------------ clone instead of alias *)
+(* a = [1]; c = [2]; c = a   while True: c.append(5); a.remove(5)
+   Python: c and a are one object, its length is the same after every pass.  Firmware: `c = a` on a
+   declared list is __redu_list_assign (a deep copy), so c grows by one cell per pass and a.remove(5)
+   finds nothing: memory-safe, but the heap grows while Python's live data is constant. *)
+Definition clone_setup : list stmt := [LDeclLit 0 [1]; LDeclLit 1 [2]; LAssignVar 1 0]%Z.
+Definition clone_body : list stmt := [LAppend 1 5; LRemove 0 5; LGet 0 (-1)]%Z.
+
+Definition grows (setup body : list stmt) : Prop :=
+  exists k p1 p2 s1 s2,
+    run_py setup body k = POk p1 /\ run_py setup body (S k) = POk p2 /\ p_live p1 = p_live p2 /\
+    run_fw setup body k = Safe s1 /\ run_fw setup body (S k) = Safe s2 /\
+    f_live_cells s1 < f_live_cells s2.
+
+Lemma clone_grows : grows clone_setup clone_body.
+Proof. exists 1; do 4 eexists; repeat (split; [vm_compute; reflexivity|]); vm_compute; lia. Qed.
